@@ -67,6 +67,9 @@ pub struct Sc {
     pub extras_pre: Vec<String>,
     #[serde(default)]
     pub extras_global: Vec<String>,
+    /// process environment of the run (TZ with daylight saving among it)
+    #[serde(default)]
+    pub ambient: crate::ambient::Ambient,
     /// `-daystart` written after the time tests: it only concerns tests that follow it
     #[serde(default)]
     pub daystart_after: bool,
@@ -257,6 +260,7 @@ impl Property for C15 {
             daystart_after: rng.chance(1, 8),
             extras_pre: ex.extras_pre,
             extras_global: ex.extras_global,
+            ambient: ex.ambient,
             files,
             ref_times,
             test,
@@ -507,6 +511,7 @@ impl Property for C15 {
         let mut find = FindScenario::new(TreeSpec::default(), argv.clone());
         find.extras_pre = sc.extras_pre.clone();
         find.extras_global = sc.extras_global.clone();
+        find.ambient = sc.ambient.clone();
         find.now_ns = Some(now as i64);
         let obs = run_find_prebuilt(&find, ctx, root);
         rep.executions += 1;
